@@ -570,16 +570,24 @@ func (c *BytecodeCompiler) compileFunctionStatements(location *position.Location
 func (c *BytecodeCompiler) compileFunction(location *position.Location, parameters []ast.ParameterNode, body func()) {
 	c.bytecode.SetParameterCount(len(parameters))
 
-	for _, param := range parameters {
+	// arguments are passed in the first slots of the frame, so every parameter
+	// has to be defined before a default value gets a chance to define
+	// a local of its own
+	paramLocals := make([]*bytecodeLocal, len(parameters))
+	for i, param := range parameters {
 		p := param.(*ast.FormalParameterNode)
-		pSpan := p.Location()
-
-		pName := identifierToName(p.Name)
-		local := c.defineLocal(pName, pSpan)
+		local := c.defineLocal(identifierToName(p.Name), p.Location())
 		if local == nil {
 			return
 		}
 		c.predefinedLocals++
+		paramLocals[i] = local
+	}
+
+	for i, param := range parameters {
+		p := param.(*ast.FormalParameterNode)
+		pSpan := p.Location()
+		local := paramLocals[i]
 
 		if p.Initialiser != nil {
 			c.bytecode.IncrementOptionalParameterCount()
@@ -963,18 +971,24 @@ func (c *BytecodeCompiler) CompileMacroBody(node *ast.MacroDefinitionNode, name 
 
 // Entry point for compiling the body of a macro.
 func (c *BytecodeCompiler) compileMacroBody(location *position.Location, parameters []ast.ParameterNode, body []ast.StatementNode) {
-	// parameters live in the first slots of the frame,
-	// they have to be defined before any other local
-	for _, param := range parameters {
+	// arguments are passed in the first slots of the frame, so every parameter
+	// has to be defined before a default value gets a chance to define
+	// a local of its own
+	paramLocals := make([]*bytecodeLocal, len(parameters))
+	for i, param := range parameters {
 		p := param.(*ast.FormalParameterNode)
-		pSpan := p.Location()
-
-		pName := identifierToName(p.Name)
-		local := c.defineLocal(pName, pSpan)
+		local := c.defineLocal(identifierToName(p.Name), p.Location())
 		if local == nil {
 			return
 		}
 		c.predefinedLocals++
+		paramLocals[i] = local
+	}
+
+	for i, param := range parameters {
+		p := param.(*ast.FormalParameterNode)
+		pSpan := p.Location()
+		local := paramLocals[i]
 
 		if p.Initialiser != nil {
 			c.bytecode.IncrementOptionalParameterCount()
@@ -1004,18 +1018,35 @@ func (c *BytecodeCompiler) compileMacroBody(location *position.Location, paramet
 
 // Entry point for compiling the body of a method.
 func (c *BytecodeCompiler) compileMethodBody(location *position.Location, parameters []ast.ParameterNode, body []ast.StatementNode) {
-	// parameters live in the first slots of the frame,
-	// they have to be defined before any other local
-	for _, param := range parameters {
+	// arguments are passed in the first slots of the frame, so every parameter
+	// has to be defined before the defer stack and before a default value
+	// gets a chance to define a local of its own
+	paramLocals := make([]*bytecodeLocal, len(parameters))
+	for i, param := range parameters {
 		p := param.(*ast.MethodParameterNode)
-		pSpan := p.Location()
-
-		pName := identifierToName(p.Name)
-		local := c.defineLocal(pName, pSpan)
+		local := c.defineLocal(identifierToName(p.Name), p.Location())
 		if local == nil {
 			return
 		}
 		c.predefinedLocals++
+		paramLocals[i] = local
+	}
+	paramCount := len(parameters)
+	var poolVar *bytecodeLocal
+	if c.isAsync && !c.isGenerator {
+		// the thread pool is passed as a hidden last argument
+		poolVar = c.defineLocal("_pool", location)
+		paramCount++
+		c.predefinedLocals++
+		c.bytecode.IncrementOptionalParameterCount()
+	}
+	c.bytecode.SetParameterCount(paramCount)
+
+	for i, param := range parameters {
+		p := param.(*ast.MethodParameterNode)
+		pSpan := p.Location()
+		pName := identifierToName(p.Name)
+		local := paramLocals[i]
 
 		if p.Initialiser != nil {
 			c.bytecode.IncrementOptionalParameterCount()
@@ -1036,17 +1067,6 @@ func (c *BytecodeCompiler) compileMethodBody(location *position.Location, parame
 			c.emit(pSpan.StartPos.Line, bytecode.POP)
 		}
 	}
-
-	paramCount := len(parameters)
-	var poolVar *bytecodeLocal
-	if c.isAsync && !c.isGenerator {
-		// the thread pool is passed as a hidden last argument
-		poolVar = c.defineLocal("_pool", location)
-		paramCount++
-		c.predefinedLocals++
-		c.bytecode.IncrementOptionalParameterCount()
-	}
-	c.bytecode.SetParameterCount(paramCount)
 
 	c.compileWithDefer(
 		func() {
